@@ -347,7 +347,9 @@ fn history(max_idle: usize, shards: usize, seed: u64, steps: usize, maha: bool) 
         let confs = [0.2f32, 0.9, 1.0];
         epochs[scene as usize] += 1;
         let epoch = epochs[scene as usize];
-        let positions: Vec<i32> = (0..3).filter(|p| (mask >> p) & 1 == 1).collect();
+        let mut positions: Vec<i32> = (0..3).filter(|p| (mask >> p) & 1 == 1).collect();
+        // submission order is not creation order: on some steps the frame lists the places in descending order
+        if (rng >> 58) & 1 == 1 { positions.reverse(); }
         let dets: Vec<_> = positions.iter().map(|p| {
             let mut b: similari::utils::bbox::Universal2DBox = BoundingBox::new(1000.0 * *p as f32, 0.0, 10.0, 20.0).into();
             b.confidence = confs[((rng >> (44 + *p)) % 3) as usize];
@@ -373,7 +375,9 @@ fn history(max_idle: usize, shards: usize, seed: u64, steps: usize, maha: bool) 
 
 #[test]
 fn replay() {
-    for seed in 0..6u64 { for max_idle in [0usize, 1, 3] { for shards in [1usize, 2] { history(max_idle, shards, seed, 60, false); history(max_idle, shards, seed, 40, true); } } }
+    for seed in 0..6u64 { for max_idle in [0usize, 1, 3] { for shards in [1usize, 2, 3, 8] { history(max_idle, shards, seed, 60, false); if shards <= 2 { history(max_idle, shards, seed, 40, true); } } } }
+    // the first steps of a tracker (few tracks, some shards still empty) under many distinct beginnings
+    for seed in 6..150u64 { for shards in [2usize, 3, 8] { history(1, shards, seed, 6, false); } }
 }
 
 /// Mahalanobis mode: a detection within bounding-circle reach of the only stored track but outside the 95% chi-square gate
